@@ -28,18 +28,25 @@ def run(ctx):
 
     # ---- C17.1 threshold is a live sample's likelihood ------------------
     rets = [(nid, fa.stmt(nid)) for nid in fa.find(lambda s: isinstance(s, ast.Return))]
-    th = fa.find(lambda s: isinstance(s, ast.Assign) and isinstance(s.targets[0], ast.Name) and s.targets[0].id == "threshold")
-    ctx.require(len(th) == 1, "determine_log_likelihood_threshold: `threshold = ...` not found")
-    tv = fa.stmt(th[0]).value
-    ctx.ob("R-SIB", "C17.1", f, "the threshold is the log-likelihood of the n-th of the samples it was given", canon(tv) in (f"{sp}[n]['logL'].copy()", f"{sp}['logL'][n].copy()", f"{sp}[n]['logL']", f"{sp}['logL'][n]"), f"`{src(tv)}`")
+    from ..pat import match_stmt as _ms
+    th = []
+    TH = N = None
+    for pat_ in (f"$$th = {sp}[$$n]['logL'].copy()", f"$$th = {sp}['logL'][$$n].copy()", f"$$th = {sp}[$$n]['logL']", f"$$th = {sp}['logL'][$$n]"):
+        for nid in fa.find(lambda s_: _ms(pat_, s_) is not None):
+            b_ = _ms(pat_, fa.stmt(nid))
+            th.append(nid)
+            TH, N = src(b_["th"]), src(b_["n"])
+    ctx.ob("R-SIB", "C17.1", f, "the threshold is the log-likelihood of the n-th of the samples it was given", len(th) == 1, "")
+    ctx.require(len(th) == 1, "determine_log_likelihood_threshold: `<threshold> = samples[<n>]['logL']` not found")
+    REN = {N: "n", TH: "threshold"}
     n_normal = 0
     for nid, r in rets:
-        if src(r.value) == "threshold":
+        if src(r.value) == TH:
             n_normal += 1
             ctx.ob("R-SIB", "C17.1", f, "normal return hands back that threshold", fa.dominates(th[0], nid), "")
         else:
             facts = [(src(e), t) for e, t in guard_facts(fa, nid)]
-            ok = ("n == 0", True) in facts and ("self.min_remove < 1", True) in facts
+            ok = (f"{N} == 0", True) in facts and ("self.min_remove < 1", True) in facts
             ctx.ob("R-SIB", "C17.1", f, "the only other return is the documented `min_remove < 1 and nothing to remove` early exit", ok, f"`{src(r)}` under {facts}", node=r)
     ctx.require(n_normal == 1, "expected exactly one `return threshold`")
     # n comes from the chosen method
@@ -48,7 +55,7 @@ def run(ctx):
     for m in ("determine_threshold_quantile", "determine_threshold_entropy"):
         g = ctx.fn(f"{INS}.{m}")
         rr = [n for n in walk_no_nested(g.node) if isinstance(n, ast.Return)]
-        ctx.ob("R-SIB", "C17.1", g, "threshold method returns an integer index", len(rr) == 1 and canon(rr[0].value) == "int(n)", f"`{src(rr[0]) if rr else None}`")
+        ctx.ob("R-SIB", "C17.1", g, "threshold method returns an integer index", len(rr) == 1 and _ms("return int($$k)", rr[0]) is not None, f"`{src(rr[0]) if rr else None}`")
     ctx.floor("C17.1", 6)
 
     # ---- C17.2 clamps ---------------------------------------------------------
@@ -60,15 +67,15 @@ def run(ctx):
         return out[0] if len(out) == 1 else None
 
     # zero handling
-    z = find_if(lambda t: canon(t) == "n == 0")
+    z = find_if(lambda t: canon(t, rename=REN) == "n == 0")
     okz = False
     if z is not None:
         inner = [s for s in z.ast.body if isinstance(s, ast.If) and canon(s.test) == "self.min_remove < 1"]
-        okz = len(inner) == 1 and len(inner[0].orelse) == 1 and isinstance(inner[0].orelse[0], ast.Assign) and canon(inner[0].orelse[0]) == "n = 1"
+        okz = len(inner) == 1 and len(inner[0].orelse) == 1 and isinstance(inner[0].orelse[0], ast.Assign) and canon(inner[0].orelse[0], rename=REN) == "n = 1"
     ctx.ob("R-LIN", "C17.2", f, "a method choice of zero removals becomes one removal when min_remove >= 1", okz, "")
-    a = find_if(lambda t: _lin_cmp(t, {size: 1, "n": -1}, "Lt", {"self.min_samples": 1}))
+    a = find_if(lambda t: _lin_cmp(t, {size: 1, N: -1}, "Lt", {"self.min_samples": 1}))
     ctx.require(a is not None, "min_samples guard `(samples.size - n) < self.min_samples` not found")
-    asg = [s for s in a.ast.body if isinstance(s, ast.Assign) and src(s.targets[0]) == "n"]
+    asg = [s for s in a.ast.body if isinstance(s, ast.Assign) and src(s.targets[0]) == N]
     oka = False
     detail = ""
     if len(asg) == 1 and isinstance(asg[0].value, ast.Call) and call_name(asg[0].value) == "max" and len(asg[0].value.args) == 2:
@@ -81,9 +88,9 @@ def run(ctx):
             detail = f"kept = size - n = {({k: str(v) for k, v in kept.items()})}"
     ctx.ob("R-LIN", "C17.2", f, "min_samples clamp: if fewer than min_samples would be kept, exactly min_samples are kept (n := max(0, size - min_samples))", oka, detail or f"`{src(asg[0]) if asg else None}`")
     # elif branch: min_remove
-    b_ok = len(a.ast.orelse) == 1 and isinstance(a.ast.orelse[0], ast.If) and _lin_cmp(a.ast.orelse[0].test, {"n": 1}, "Lt", {"self.min_remove": 1})
+    b_ok = len(a.ast.orelse) == 1 and isinstance(a.ast.orelse[0], ast.If) and _lin_cmp(a.ast.orelse[0].test, {N: 1}, "Lt", {"self.min_remove": 1})
     b_asg = [s for s in a.ast.orelse[0].body if isinstance(s, ast.Assign)] if b_ok else []
-    ctx.ob("R-LIN", "C17.2", f, "otherwise (elif) at least min_remove are removed: n < min_remove => n := min_remove", b_ok and len(b_asg) == 1 and canon(b_asg[0]) == "n = self.min_remove", f"`{src(a.ast.orelse[0].test) if a.ast.orelse else None}`")
+    ctx.ob("R-LIN", "C17.2", f, "otherwise (elif) at least min_remove are removed: n < min_remove => n := min_remove", b_ok and len(b_asg) == 1 and canon(b_asg[0], rename=REN) == "n = self.min_remove", f"`{src(a.ast.orelse[0].test) if a.ast.orelse else None}`")
     # cap
     c = None
     for n in ifs:
@@ -93,8 +100,8 @@ def run(ctx):
     ctx.require(c is not None, "max_samples cap branch not found")
     cj = conjuncts(c.ast.test, True)
     cond = [e for e, t in cj if isinstance(e, ast.Compare)]
-    okc = len(cond) == 1 and _lin_cmp(cond[0], {size: 1, "n": -1, "self.nlive": 1}, "Gt", {"self.max_samples": 1})
-    casg = [s for s in c.ast.body if isinstance(s, ast.Assign) and src(s.targets[0]) == "n"]
+    okc = len(cond) == 1 and _lin_cmp(cond[0], {size: 1, N: -1, "self.nlive": 1}, "Gt", {"self.max_samples": 1})
+    casg = [s for s in c.ast.body if isinstance(s, ast.Assign) and src(s.targets[0]) == N]
     nxt = None
     if len(casg) == 1:
         nxt = lin_add(lin_sub(linear(_name(size)), linform(casg[0].value)), {"self.nlive": 1})
@@ -108,12 +115,12 @@ def run(ctx):
         recognised.add(id(st))
     if z is not None:
         for x in ast.walk(z.ast):
-            if isinstance(x, ast.Assign) and canon(x) == "n = 1":
+            if isinstance(x, ast.Assign) and canon(x, rename=REN) == "n = 1":
                 recognised.add(id(x))
     extra = []
     for node in fa.nodes():
         st = node.ast
-        if node.kind == "stmt" and isinstance(st, (ast.Assign, ast.AugAssign)) and src(st.targets[0] if isinstance(st, ast.Assign) else st.target) == "n":
+        if node.kind == "stmt" and isinstance(st, (ast.Assign, ast.AugAssign)) and src(st.targets[0] if isinstance(st, ast.Assign) else st.target) == N:
             if id(st) in recognised:
                 continue
             if isinstance(st, ast.Assign) and isinstance(st.value, ast.Call) and (call_name(st.value) or "").startswith("self.determine_threshold_"):
@@ -124,13 +131,13 @@ def run(ctx):
 
     # ---- C17.3 training floor ----------------------------------------------------
     g = ctx.fn(INS + ".add_new_proposal")
-    inl = single_assignments(g.node)
-    nt = inl.get("n_train")
-    want = {"min(argmax(self.training_samples.samples['logL'] >= self.log_likelihood_threshold), self.training_samples.samples.size - self.min_samples)",
-            "min(self.training_samples.samples.size - self.min_samples, argmax(self.training_samples.samples['logL'] >= self.log_likelihood_threshold))"}
-    ctx.ob("R-SIB", "C17.3", g, "training starts at min(first sample at/above the threshold, size - min_samples): at least min_samples are used", nt is not None and canon(nt) in want, f"`{src(nt)[:140] if nt is not None else None}`")
-    sl = {src(t): canon(s.value) for s in walk_no_nested(g.node) if isinstance(s, ast.Assign) for t in s.targets if src(t).startswith("self.current_training_")}
-    ctx.ob("R-SIB", "C17.3", g, "training samples and their density rows are the same tail slice [n_train:]", sl.get("self.current_training_samples") == "self.training_samples.samples[n_train:].copy()" and sl.get("self.current_training_log_q") == "self.training_samples.log_q[n_train:, :].copy()", f"{sl}")
+    from ..pat import find_stmt as _fs
+    want = ("$$k = min(argmax(self.training_samples.samples['logL'] >= self.log_likelihood_threshold), self.training_samples.samples.size - self.min_samples)",
+            "$$k = min(self.training_samples.samples.size - self.min_samples, argmax(self.training_samples.samples['logL'] >= self.log_likelihood_threshold))")
+    nt = [b for n_, b in _fs(want[0], g.node)]  # `min` is commutative: the canonicaliser sorts its arguments
+    ctx.ob("R-SIB", "C17.3", g, "training starts at min(first sample at/above the threshold, size - min_samples): at least min_samples are used", len(nt) == 1, "")
+    oksl = len(nt) == 1 and len(_fs("self.current_training_samples = self.training_samples.samples[$$k:].copy()", g.node, nt[0])) == 1 and len(_fs("self.current_training_log_q = self.training_samples.log_q[$$k:, :].copy()", g.node, nt[0])) == 1
+    ctx.ob("R-SIB", "C17.3", g, "training samples and their density rows are the same tail slice [n_train:]", oksl, "")
     tr = [c for c in walk_no_nested(g.node) if isinstance(c, ast.Call) and call_name(c) == "self.proposal.train"]
     ctx.ob("R-SIB", "C17.3", g, "the proposal is trained on exactly that slice", len(tr) == 1 and src(tr[0].args[0]) == "self.current_training_samples", "")
     ctx.floor("C17.3", 3)
@@ -146,12 +153,13 @@ def run(ctx):
     ctx.require(seen >= set(ARGMAX_REVIEWED), f"reviewed argmax sites vanished: {set(ARGMAX_REVIEWED) - seen}")
     # supports of the reviewed reasons
     ge = ctx.fn(INS + ".determine_threshold_entropy")
-    norm = [s for s in walk_no_nested(ge.node) if isinstance(s, ast.AugAssign) and isinstance(s.op, ast.Div) and canon(s.target) == "cdf" and canon(s.value) == "cdf[-1]"]
-    am = [s for s in walk_no_nested(ge.node) if isinstance(s, ast.Assign) and canon(s.value) == "argmax(cdf >= q)"]
-    ctx.ob("R-ARGMAX", "C17.4", ge, "entropy method: the CDF is normalised by its last element before the first-true search", len(norm) == 1 and len(am) == 1 and norm[0].lineno < am[0].lineno, "")
+    norm = _fs("$$c /= $$c[-1]", ge.node)
+    am = _fs("$$k = argmax($$c >= q)", ge.node, norm[0][1] if norm else None)
+    ctx.ob("R-ARGMAX", "C17.4", ge, "entropy method: the CDF is normalised by its last element before the first-true search", len(norm) == 1 and len(am) == 1 and norm[0][0].lineno < am[0][0].lineno, "")
     gq = ctx.fn(INS + ".determine_threshold_quantile")
-    inlq = single_assignments(gq.node)
-    okq = "cutoff" in inlq and canon(inlq["cutoff"]).startswith("weighted_quantile(a, q") and any(canon(s.value) == "argmax(a >= cutoff)" for s in walk_no_nested(gq.node) if isinstance(s, ast.Assign)) and canon(inlq.get("a", ast.Constant(None))) == f"{gq.params()[1]}['logL']"
+    aq = _fs(f"$$a = {gq.params()[1]}['logL']", gq.node)
+    cq_ = _fs("$$c = weighted_quantile($$a, q, log_weights=$$w, values_sorted=True)", gq.node, aq[0][1] if aq else None)
+    okq = len(aq) == 1 and len(cq_) == 1 and len(_fs("$$k = argmax($$a >= $$c)", gq.node, cq_[0][1])) == 1
     ctx.ob("R-ARGMAX", "C17.4", gq, "quantile method: the cut-off is a weighted quantile of the same likelihood array that is searched", okq, "")
     ctx.floor("C17.4", 5)
 
